@@ -105,6 +105,12 @@ check("C16", "exploration",
   "Hooks: verifPoison inserted at the top of putSliceToPool and the deterministic LIFO pool (overlay, build tag verif). Depth <=3; unrelated activity runs in the same goroutine (other goroutines: C15).",
   "DESIGN.md §2 C16")
 
+check("C17", "exploration",
+  "bounded exhaustive enumeration of job x container x pool policy x every history of prior uses of the same instance up to depth D, comparing the bytes of the final job with a fresh instance's, plus case-by-case comparison of the fresh digests across build variants (asm, AVX2 disabled, purego)",
+  "8 jobs (default, small pages, dictionary fallback, bloom filters, 2 row groups, key/value + sorting metadata, v1+snappy+statistics, all combined) on 4 containers (GenericWriter, Writer(any), GenericBuffer sorted and written with WriteRowGroup, SortingWriter) after ALL sequences of <=2 (quick) / <=3 (thorough) prior uses from {complete small / large / empty job, job aborted after Write, job whose sink fails, Flush only, Close twice}, each followed by Reset, under the real and the always-reuse pool; the final job must be byte-identical to the same job on a fresh instance (also when run in another goroutine), and the fresh job's digest must be identical in every build variant.",
+  "Go map-typed values and encryption excluded by the statement. One row type; histories longer than D and the GOEXPERIMENT=simd build are not covered.",
+  "DESIGN.md §2 C17")
+
 NOT_YET = "check not built yet in this round (design in DESIGN.md §2); not claimed until its check exists"
 
 m = {
